@@ -237,6 +237,25 @@ def structure_check(t, tree, dialect):
             op = "NOT" if x[1] == "not" else "-"
             if not any(n[0] == "un" and n[1] == op and L(n[2]) == want for n in nodes):
                 return ("operator-not-mirrored:" + x[1], "no SQL unary %s node over %s" % (op, sorted(want)))
+        if k == "call" and x[1] == "indexof" and not x[2] and parent is not None and parent[0] in ("un", "bin"):
+            # indexof is emitted as `<position function> - 1`: that difference is one operand of the parent
+            # operator (a unary minus or an arithmetic operator binds tighter than, or as tight as, its minus)
+            want = f_leaves(x)
+            units = [n for n in nodes if n[0] == "bin" and n[1] == "-" and sqlparse.strip(n[3]) == ("num", "1")
+                     and sqlparse.strip(n[2])[0] == "call" and L(n[2]) == want]
+            if not units:
+                return ("indexof-offset-not-mirrored", "no SQL node `<call over %s> - 1`" % sorted(want))
+            if parent[0] == "un" and parent[1] == "neg":
+                ok = any(n[0] == "un" and n[1] == "-" and sqlparse.strip(n[2]) in units for n in nodes)
+            elif parent[0] == "bin":
+                sides = [i for i in (2, 3) if parent[i] == x]
+                ok = any(n[0] == "bin" and n[1] in OPMAP[parent[1]] and any(sqlparse.strip(n[i]) in units for i in sides)
+                         for n in nodes)
+            else:
+                ok = True
+            if not ok:
+                return ("indexof-offset-not-mirrored", "the `- 1` of indexof over %s is not inside the operand of its parent %s" % (
+                    sorted(want), parent[1]))
     return None
 
 
@@ -447,6 +466,8 @@ def exhaustive_terms():
                 yield ("cmp", "eq", ("call", "indexof", (), (a, b)), outer)
             yield ("cmp", "lt", ("bin", "mul", ("call", "indexof", (), (a, b)), I(1)), I(2))
             yield ("cmp", "lt", ("bin", "sub", I(1), ("call", "indexof", (), (a, b))), I(2))
+            yield ("cmp", "eq", ("un", "neg", ("call", "indexof", (), (a, b))), I(2))
+            yield ("cmp", "ge", ("bin", "mod", I(1), ("call", "indexof", (), (a, b))), ("un", "neg", ("bin", "add", ("call", "indexof", (), (a, b)), I(2))))
             yield ("cmp", "eq", ("call", "concat", (), (a, b)), S(1))
     for a in str_comps + [S(1)]:
         yield ("cmp", "gt", ("call", "length", (), (a,)), ("bin", "sub", I(1), I(2)))
